@@ -5,6 +5,8 @@
 (* code:  {"ev":"Case","c":{case},"sign":b,"av":b,"avpanic":b,"N":len}     *)
 (*   sign  AggregateSign succeeded for the sorted signing list             *)
 (*   av    AggregateVerify accepted (avpanic: it aborted)                  *)
+(*   cdist the coefficients the code computes for the signing list over    *)
+(*         the final key vector are pairwise distinct                      *)
 (* Mode "full":    outcomes equal the specification's outcomes.            *)
 (* Mode "monitor": exactly C14: an honestly produced signature verifies    *)
 (*                 for its own vector / signer list / message (Complete),  *)
@@ -25,12 +27,14 @@ Full(e) ==
     /\ e.sign = SignOK(e.c)
     /\ e.av = AggVerifyOK(e.c)
     /\ ~e.avpanic
+    /\ e.cdist
 
 Monitor(e) ==
     /\ (Honest(e.c) /\ SignOK(e.c)) => e.sign
     /\ Complete(e.c, e.av)
     /\ Sound(e.c, e.av)
     /\ ~e.avpanic
+    /\ e.cdist      \* AggSig!CoefficientsDistinct observed on the code's own coefficient function
 
 EventOK(e) == IF Mode = "full" THEN Full(e) ELSE Monitor(e)
 
